@@ -48,6 +48,16 @@ RULE = ("(1) EVERY .co file under the repository (exhaustive, both tiers), versi
         "break/continue directly and nested in if/when, on real RuntimeV2_x (85 %) / LLMRails (15 %) objects, all live instances inspected after every step; "
         "(7) 25 % of the AST cases additionally re-enter the compiler (initialize_flow twice / recompile the same parsed flows once or twice); "
         "(8) Colang 1.0 histories (LLMRails on a shared RailsConfig, reload, generate, _process_start_flow with generated bodies). "
+        "(9) phase 5: the 1.0 source generator covers EVERY statement form colang_parser dispatches on (user / bot incl. quoted, `...`, `or`, with-params, inline examples; event; do; "
+        "goto / go to; meta incl. indented params and the `priority` shorthand; set / += / -= / `...`; check; run / execute / exec incl. result variable and params; label / checkpoint / "
+        "`set … label to` incl. values; if / else if / else; while; any; infer / new / create; pass / continue; stop / abort; break; return / done incl. values; when / else when on user / bot / "
+        "event specs, nested) in every block position (`meta` as first / middle / last / only statement of flow body, then / else-if / else body, loop body, when branch), flow headers with "
+        "every modifier (subflow, extension, parallel, sample, repair, non-interruptable), flows that start with a loop / if / when; (10) every compiled 1.0 flow (files, generated source, "
+        "generated item trees) additionally goes through the REAL RuntimeV1_0._init_flow_configs / _load_flow_config and the elements the runtime HOLDS get the same scan, the proved "
+        "checker v1Closed and a differential against the Lean model loadFlow; (11) v1yaml: the same item trees in CoYML shorthand (every key _dict_to_element accepts) through the second "
+        "loading route RailsConfig.parse_object / from_content(yaml) + the loader; (12) v1rt inspects EVERY flow of the configuration and of every live runtime (default / library flows "
+        "too), 30 % of the configurations use generated flows as input / output rails (LLMRails marks them as subflows); (13) a compile case that fails is re-run in a fresh interpreter: a "
+        "failure that depends on what the worker compiled before gets the class @after-other-compilations and is turned into a hermetic sequence case (v1seq / v2seq). "
         "non-trivial = the compiled flow contains at least one jump target / relative offset; distinct = distinct case JSON.")
 TRUSTED_BASE = [
     "harness/props/C12.py: encoders real element -> Prim / Elem JSON (class name and four attributes per element), AST -> Stmt / Item converters, label canonicaliser",
@@ -61,6 +71,7 @@ ASSUMPTIONS = [
     "scope pairing in `Closed` is on the linear element order; the per-path statement (no BeginScope met while the scope is held, no failing look-up) is proved per program by the certificate checker `pathSafe` on every real flow that opens a scope (<= 400 elements)",
     "a flow the loader rejects (syntax error, expansion error) is outside the property; such inputs are counted and listed",
     "re-compilation of a parsed flow: the Lean theorem (`recompile_closed`) is about the REPAIRED compiler (fixes/C12-loop-exit-label-in-place.diff); the code as it is violates it inside the region of the open finding 2.x:dangling-target@recompiled-ast (`recompile_as_is_counterexample`) and satisfies `recompile_as_is_closed_partial` outside",
+    "Colang 1.0 loader model (`loadFlow`): `_load_flow_config` removes exactly the leading `meta` element; the theorems `v1_loaded_in_bounds` / `v1_loaded_leading_meta` are about `loadFlow ∘ compileFull`, tied by two differentials on every flow (parse_flow_elements vs compileFull on the items, runtime-held elements vs loadFlow of the compiled elements)",
     "generated v2rt programs are compiled, not executed (gated behind `match NeverSent()`): closedness is a static property of the flow configs the runtime holds; the corpus histories execute their loops",
 ]
 
@@ -74,6 +85,9 @@ MODELLED = [
     ("nemoguardrails/colang/v1_0/lang/coyml_parser.py", None, "_resolve_gotos"),
     ("nemoguardrails/colang/v1_0/lang/coyml_parser.py", None, "_process_ellipsis"),
     ("nemoguardrails/colang/v1_0/runtime/sliding.py", None, "slide"),
+    ("nemoguardrails/colang/v1_0/runtime/runtime.py", "RuntimeV1_0", "_load_flow_config"),
+    ("nemoguardrails/colang/v1_0/runtime/runtime.py", "RuntimeV1_0", "_process_start_flow"),
+    ("nemoguardrails/rails/llm/config.py", "RailsConfig", "parse_object"),
     ("nemoguardrails/colang/v2_x/lang/expansion.py", None, "expand_elements"),
     ("nemoguardrails/colang/v2_x/lang/expansion.py", None, "_expand_if_element"),
     ("nemoguardrails/colang/v2_x/lang/expansion.py", None, "_expand_while_stmt_element"),
@@ -275,10 +289,42 @@ def gen_v2_ast(rng, depth, in_loop=False, dup=False, nojump=False):
     return out
 
 
+# Colang 1.0 statement kinds (phase 5): EVERY statement form `colang_parser.parse` dispatches on (main tokens user / bot /
+# event / do / goto, go to / meta (+ the `priority` shorthand) / set, check / run, execute, exec / label, checkpoint (+ `set …
+# label to`) / if, else if, else / while / any / infer, new, create / pass, continue / stop, abort / break / return, done /
+# when, else when) in EVERY block position (flow body, then / else-if / else body, loop body, when / else-when branch,
+# first / middle / last / only statement of the block).  `meta` is special: `_parse_meta` hoists it to position 0 of the
+# block it appears in, `_extract_elements` counts it when it computes the relative offsets, and `_load_flow_config` removes
+# (only) the leading one of a flow afterwards — the elements the RUNTIME holds are not the elements the parser returned.
+V1_META = ['meta {"note": "n"}', 'meta {"is_sample": false}', "priority 2", "priority 0.5", 'meta\n  note: "x"']
+V1_RARE = [
+    "stop", "abort", "pass", "done", "return $x, 1", "do g", "do g($x)", "do $r = g", "event Foo", "event Foo with $x",
+    "infer user said x", "new event X", "create event X", "infer\n  user said x", "run act", "exec act", "run act\n  a: 1",
+    "$x = execute act(a=1)", "check $x", "set $x = 1", "$x += 1", "$x -= 1", 'user "hello there"', "user something",
+    "user said a with $x", "user [said a, said b]", "user ...", "user said a or user said b", 'bot "Hello"', "bot say a with $x",
+    "bot say a or say b", "bot ...", "bot say a if $x", "bot say something else", 'bot say q\n  "Hi"\n  "Ho"',
+]
+V1_WHEN = ["user said %s", "user said %s", "user said %s", "Foo%s", "event Foo%s", "bot say %s", "user something"]
+V1_HEADERS = ["flow", "flow", "flow", "subflow", "subflow", "extension flow", "parallel flow", "sample flow", "repair flow", "non-interruptable flow", "parallel extension flow"]
+
+
+def _v1_lines(pad, text):
+    return [pad + l for l in text.split("\n")]
+
+
 def _v1_block(rng, depth, in_loop, ind, out, labels):
     n = rng.choice([1, 1, 2, 2, 3])
     pad = "  " * ind
-    for _ in range(n):
+    meta_at = rng.randrange(n + 1) if rng.random() < 0.22 else None  # a `meta` statement: first / middle / last of the block
+    if meta_at is not None and rng.random() < 0.15:
+        n = 0  # ... or the only statement of the block
+    for j in range(n + 1):
+        if meta_at == j or (meta_at is not None and n == 0):
+            out.extend(_v1_lines(pad, rng.choice(V1_META)))
+            if n == 0:
+                return
+        if j == n:
+            break
         r = rng.random()
         if depth > 0 and r < 0.22:
             out.append(pad + "if $x > 1")
@@ -293,50 +339,61 @@ def _v1_block(rng, depth, in_loop, ind, out, labels):
             out.append(pad + "while $x < 3")
             _v1_block(rng, depth - 1, True, ind + 1, out, labels)
         elif depth > 0 and r < 0.48:
-            out.append(pad + "when user said %s" % rng.choice("abc"))
+            out.append(pad + "when " + rng.choice(V1_WHEN).replace("%s", rng.choice("abc")))
             _v1_block(rng, depth - 1, in_loop, ind + 1, out, labels)
             for _ in range(rng.choice([0, 1, 1, 2])):
-                out.append(pad + "else when user said %s" % rng.choice("def"))
+                out.append(pad + "else when " + rng.choice(V1_WHEN).replace("%s", rng.choice("def")))
                 _v1_block(rng, depth - 1, in_loop, ind + 1, out, labels)
         else:
             q = rng.random()
-            if q < 0.2:
+            if q < 0.17:
                 out.append(pad + "user said %s" % rng.choice("abc"))
-            elif q < 0.4:
+            elif q < 0.34:
                 out.append(pad + "bot say %s" % rng.choice("abc"))
-            elif q < 0.52:
+            elif q < 0.46:
                 out.append(pad + (rng.choice(["break", "continue"]) if (in_loop or rng.random() < 0.3) else "$y = 2"))
-            elif q < 0.60:
+            elif q < 0.52:
                 out.append(pad + "$x = " + rng.choice(["1", "$x + 1", "..."]))
-            elif q < 0.68:
+            elif q < 0.60:
                 nm = "l%d" % len(labels)
                 labels.append(nm)
-                out.append(pad + "label " + nm)
-            elif q < 0.78:
+                out.append(pad + rng.choice(["label %s", "label %s", "checkpoint %s", "set %s label to $x", 'label %s "v"']) % nm)
+            elif q < 0.70:
                 # mostly defined labels, sometimes a forward / undefined reference (undefined -> the parser rejects the flow)
                 if labels and rng.random() < 0.92:
-                    out.append(pad + "goto " + rng.choice(labels))
+                    out.append(pad + rng.choice(["goto ", "goto ", "go to "]) + rng.choice(labels))
                 elif rng.random() < 0.12:
                     out.append(pad + "goto l%d" % rng.randrange(len(labels), len(labels) + 2))
                 else:
                     out.append(pad + "bot say z")
-            elif q < 0.84:
+            elif q < 0.75:
                 out.append(pad + "any")
                 for _ in range(rng.choice([2, 3])):
-                    out.append(pad + "  user said %s" % rng.choice("xyz"))
-            elif q < 0.90:
+                    out.append(pad + "  " + rng.choice(["user said %s", "user said %s", "event Ev%s"]) % rng.choice("xyz"))
+            elif q < 0.79:
                 out.append(pad + "execute act_%s" % rng.choice("ab"))
-            elif q < 0.95:
+            elif q < 0.83:
                 out.append(pad + rng.choice(["return", "stop"]))
-            else:
+            elif q < 0.86:
                 out.append(pad + "$x = ...")
+            else:
+                out.extend(_v1_lines(pad, rng.choice(V1_RARE)))
 
 
-def gen_v1_src(rng, depth):
+def gen_v1_src(rng, depth, rt=False, free=()):
     out = []
     for i in range(rng.choice([1, 2, 3])):
-        out.append("define flow f%d" % i)
-        out.append("  user said start")
+        hdr = rng.choice(V1_HEADERS) if i not in free else rng.choice(["flow", "flow", "flow", "subflow", "extension flow"])
+        out.append("define %s f%d" % (hdr, i))
+        # (in a configuration that holds conversations only a subflow / a rail flow may start with a non-event: it is never started by an event)
+        if (rng.random() < 0.85 and i not in free) or (rt and hdr != "subflow" and i not in free):  # (else the flow STARTS with whatever the block starts with: a loop, an `if`, a `when` …)
+            out.append("  user said start")
+        elif rng.random() < 0.4:  # a loop / a checkpoint that is the FIRST element of the flow (backward offsets reach index 0)
+            if rng.random() < 0.7:
+                out.append("  while $x < 3")
+                _v1_block(rng, max(depth - 1, 0), True, 2, out, [])
+            else:
+                out.extend(["  label top", "  bot say a", "  if $x", "    goto top"])
         _v1_block(rng, depth, False, 1, out, [])
         out.append("")
     return "\n".join(out) + "\n"
@@ -363,7 +420,7 @@ def gen_v1_items(rng, depth, in_loop=False, top=True):
         elif r < 0.62:
             out.append(["s", rng.choice(["break", "continue"])] if (in_loop or rng.random() < 0.3) else ["s", "set"])
         elif r < 0.68:
-            out.append(["label", "l%d" % rng.randrange(5)])
+            out.append(["label", "l%d" % rng.randrange(5)] + (["v"] if rng.random() < 0.3 else []))
         elif r < 0.74:
             out.append(["goto", "l%d" % rng.randrange(5)])
         elif r < 0.78:
@@ -544,10 +601,14 @@ def _v1_defined_gotos(src):
 
 
 def gen_v1_rt(rng, depth):
-    src = "define user express greeting\n  \"hello\"\n\n" + _v1_defined_gotos(gen_v1_src(rng, depth))
-    if rng.random() < 0.5:
-        # subflows start with a `meta` element which `_load_flow_config` slices off (`elements[1:]`) AFTER the offsets were computed
-        src = re.sub(r"(?m)^define flow (f[12])$", lambda m: "define subflow " + m.group(1), src)
+    # 30 %: some of the generated flows are the configuration's input / output rails (LLMRails marks them `is_subflow`); like
+    # real rail flows (`$ok = execute …`, `if not $ok` …) they start with whatever their block starts with; such a
+    # configuration holds no conversation here (a rail would run the generated body)
+    free = [i for i in range(3) if rng.random() < 0.6] if rng.random() < 0.3 else []
+    src = "define user express greeting\n  \"hello\"\n\n" + _v1_defined_gotos(gen_v1_src(rng, depth, True, free))
+    # (subflow / extension / parallel … headers and `meta` / `priority` statements of the flow body give the flow a leading
+    # `meta` element which `_load_flow_config` slices off (`elements[1:]`) AFTER the offsets were computed; `meta` statements
+    # inside blocks stay where they are)
     steps = [["new"]]
     for _ in range(rng.choice([1, 2, 3])):
         r = rng.random()
@@ -561,17 +622,26 @@ def gen_v1_rt(rng, depth):
             body = ["user express greeting"]  # (the new flow is started at once: it must wait at its first element)
             _v1_block(rng, rng.randrange(1, depth + 1), False, 0, body, [])
             steps.append(["dyn", "dyn%d" % rng.randrange(3), _v1_defined_gotos("\n".join(body) + "\n")])
-    return {"kind": "v1rt", "src": src, "steps": steps}
+    case = {"kind": "v1rt", "src": src, "steps": steps}
+    ids = re.findall(r"(?m)^define (?:[\w-]+ )*flow (f\d)$", src)
+    rails = {"input": [], "output": []}
+    for i in free:
+        if "f%d" % i in ids:
+            rails[rng.choice(["input", "output"])].append("f%d" % i)
+    if rails["input"] or rails["output"]:
+        case["rails"] = rails
+        case["steps"] = [["new"] if st[0] == "gen" else st for st in steps]
+    return case
 
 
 def gen_cases(rng, tier):
     cases = [{"kind": "file", "path": p} for p in shipped_files()]
     if tier == "quick":
         n_v2src, n_v2ast, n_v1src, n_v1items, depth = 900, 5000, 1500, 5000, 4
-        n_v2rt, n_v1rt = 500, 120
+        n_v2rt, n_v1rt, n_v1yaml = 500, 120, 1200
     else:
         n_v2src, n_v2ast, n_v1src, n_v1items, depth = 5000, 45000, 10000, 60000, 6
-        n_v2rt, n_v1rt = 4000, 800
+        n_v2rt, n_v1rt, n_v1yaml = 4000, 800, 9000
     for _ in range(n_v2rt):
         cases.append(gen_v2_rt(rng, tier != "quick"))
     for _ in range(n_v1rt):
@@ -591,6 +661,14 @@ def gen_cases(rng, tier):
         if rng.random() < 0.8:
             items = _fix_labels(rng, items)
         cases.append({"kind": "v1items", "items": items})
+    for _ in range(n_v1yaml):
+        items = gen_v1_items(rng, rng.randrange(1, 6))
+        if rng.random() < 0.85:
+            items = _fix_labels(rng, items)
+        c = {"kind": "v1yaml", "items": items}
+        if rng.random() < 0.1:
+            c["text"] = True  # through YAML text (`RailsConfig.from_content(yaml_content=…)`), else `RailsConfig.parse_object`
+        cases.append(c)
     return cases
 
 
@@ -606,6 +684,8 @@ def escalate(rng, focus, tier):
     for _ in range(20000):
         cases.append({"kind": "v2ast", "stmts": gen_v2_ast(rng, rng.randrange(1, 7))})
         cases.append({"kind": "v1items", "items": _fix_labels(rng, gen_v1_items(rng, rng.randrange(1, 7)))})
+    for _ in range(3000):
+        cases.append({"kind": "v1yaml", "items": _fix_labels(rng, gen_v1_items(rng, rng.randrange(1, 6)))})
     return cases
 
 
@@ -1302,9 +1382,12 @@ def run_v1rt(case):
     import asyncio
 
     obs = {"version": "1.0", "rt": True, "flows": [], "steps_done": []}
+    yaml1 = RT_YAML1
+    if case.get("rails"):  # generated flows used as input / output rails: LLMRails marks them `is_subflow` / `is_system_flow`
+        yaml1 += "rails:\n" + "".join("  %s:\n    flows:\n%s" % (k, "".join("      - %s\n" % f for f in fs)) for k, fs in sorted(case["rails"].items()) if fs)
     try:
         with _quiet():
-            config = _M["RailsConfig"].from_content(colang_content=case["src"], yaml_content=RT_YAML1)
+            config = _M["RailsConfig"].from_content(colang_content=case["src"], yaml_content=yaml1)
     except Exception as e:  # noqa
         obs["reject"] = f"parse: {type(e).__name__}: {str(e)[:120]}"
         return obs
@@ -1317,18 +1400,26 @@ def run_v1rt(case):
     dyn_items = {}
 
     def snapshot(step):
-        views = [("config", {f["id"]: f["elements"] for f in config.flows if f["id"] in own})]
+        # EVERY flow of the configuration object and EVERY flow config a live runtime holds (phase 5: also the default flows
+        # LLMRails adds from llm_flows.co / the library and the flows it marks as rail subflows); flows that are not the
+        # case's own are recorded once per case unless an instance holds something else
+        views = [("config", {f["id"]: f["elements"] for f in config.flows})]
         for j, r in enumerate(insts):
-            views.append(("rt%d" % j, {fid: fc.elements for fid, fc in r.runtime.flow_configs.items() if fid in own or fid.startswith("dyn")}))
+            views.append(("rt%d" % j, {fid: fc.elements for fid, fc in r.runtime.flow_configs.items()}))
         for vname, flows in views:
             for fid, elements in flows.items():
                 elems = [elem_of(e) for e in elements]
-                if seen.get((vname, fid)) == elems:
+                mine = fid in own or fid.startswith("dyn")
+                key = (vname, fid) if mine else (vname[:2], fid)
+                if seen.get(key) == elems:
                     continue
-                seen[(vname, fid)] = elems
+                seen[key] = elems
                 rec = {"id": fid, "elems": elems, "oracle": scan_v1(elements), "snap": [step, vname], "cls": "" if step == 0 else "@later"}
                 if vname.startswith("rt") and dyn_items.get((vname, fid)) is not None:
                     rec["items"], rec["dyn"] = dyn_items[(vname, fid)], True  # compared with the Lean model `dynamicFlow`
+                elif vname.startswith("rt") and fid in views[0][1] and not fid.startswith("dyn"):
+                    # the flow a live runtime holds vs the Lean model `loadFlow` of the loader applied to the configuration's elements
+                    rec["from"] = [elem_of(e) for e in views[0][1][fid]]
                 obs["flows"].append(rec)
 
     for i, st in enumerate(case["steps"]):
@@ -1338,7 +1429,7 @@ def run_v1rt(case):
             with _quiet():
                 if k in ("new", "reload"):
                     if k == "reload":
-                        config = _M["RailsConfig"].from_content(colang_content=case["src"], yaml_content=RT_YAML1)
+                        config = _M["RailsConfig"].from_content(colang_content=case["src"], yaml_content=yaml1)
                     insts.append(_M["LLMRails"](config, llm=_M["FakeLLM"](responses=["  express greeting", '  "Hi"'] * 4)))
                 elif k == "gen":
                     insts[-1].generate(messages=[{"role": "user", "content": st[1]}])
@@ -1352,7 +1443,7 @@ def run_v1rt(case):
 
                         try:  # the CoYML items of the same body through the split pipeline (for the model `dynamicFlow`)
                             body = "define flow " + st[1] + ":\n" + textwrap.indent(st[2], "  ")
-                            recs = compile_v1_source("dynamic.co", body)
+                            recs = compile_v1_source("dynamic.co", body, load=False)
                             dyn_items[("rt%d" % (len(insts) - 1), st[1])] = recs[0].get("items") if len(recs) == 1 else None
                         except Exception:  # noqa
                             pass
@@ -1407,6 +1498,15 @@ def scan_v1(elements):
             probs.append(f"missing-offset: element {i} `while` without _next_on_break")
         if t == "jump" and "_next" not in e:
             probs.append(f"missing-offset: element {i} `jump` without _next")
+        # "every jump target exists": a resolved `goto <name>` (`_resolve_gotos` leaves `_debug = "goto <name>"`) must land on the
+        # element that was the checkpoint `<name>` (`_label = <name>`) of the SAME flow
+        dbg = e.get("_debug")
+        if t == "jump" and isinstance(dbg, str) and dbg.startswith("goto ") and "_next" in e and not e.get("_absolute"):
+            tgt = i + int(e["_next"])
+            if 0 <= tgt < n and elements[tgt].get("_label") != dbg[5:]:
+                probs.append(f"goto-misses-checkpoint: element {i} is the resolved `{dbg}` and lands on element {tgt}, which is not the checkpoint `{dbg[5:]}` ({elements[tgt].get('_type')}, _label={elements[tgt].get('_label')!r})")
+            elif tgt == n:
+                probs.append(f"goto-misses-checkpoint: element {i} is the resolved `{dbg}` and lands on the end of the flow, not on the checkpoint `{dbg[5:]}`")
     return probs
 
 
@@ -1465,7 +1565,7 @@ def build_v1_items(items):
         elif k == "ret":
             out.append({"_type": "jump", "_next": "-1", "_absolute": True})
         elif k == "label":
-            out.append({"_type": "label", "name": it[1]})
+            out.append(dict({"_type": "label", "name": it[1]}, **({"value": it[2]} if len(it) > 2 else {})))
         elif k == "goto":
             out.append({"_type": "goto", "label": it[1]})
         elif k == "if":
@@ -1482,7 +1582,122 @@ def build_v1_items(items):
     return out
 
 
-def compile_v1_items(flow_id, items, model_items):
+def load_v1_flows(flow_dicts):
+    """phase 5 — the elements the RUNTIME holds.  The compiled flows go through the real `RuntimeV1_0._init_flow_configs` /
+    `_load_flow_config` (one RuntimeV1_0 per worker process, its configuration's flow list replaced per case); returned are
+    the `FlowConfig.elements` lists of `runtime.flow_configs` — what `slide` / `compute_next_state` execute.  They get the
+    same from-scratch scan and the same proved checker as the parser's output, plus a differential against the Lean model
+    `loadFlow` of the loader."""
+    rt = _M.get("v1loader")
+    if rt is None:
+        from nemoguardrails.colang.v1_0.runtime.runtime import RuntimeV1_0
+
+        with _quiet():
+            rt = RuntimeV1_0(config=_M["RailsConfig"].from_content(colang_content="", yaml_content=RT_YAML1))
+        _M["v1loader"] = rt
+    recs = []
+    rt.config.flows = [copy.deepcopy(f) for f in flow_dicts]
+    try:
+        rt._init_flow_configs()
+    except Exception as e:  # noqa
+        return [{"id": f["id"], "loaded": True, "reject": f"load: {type(e).__name__}: {str(e)[:120]}"} for f in flow_dicts]
+    for f in flow_dicts:
+        fc = rt.flow_configs.get(f["id"])
+        if fc is None:
+            recs.append({"id": f["id"], "loaded": True, "elems": [], "oracle": ["adapter: the runtime holds no flow config for this flow of the configuration"], "cls": "@loaded"})
+            continue
+        recs.append({"id": f["id"], "loaded": True, "elems": [elem_of(e) for e in fc.elements], "oracle": scan_v1(fc.elements),
+                     "from": [elem_of(e) for e in f["elements"]], "cls": "@loaded"})
+    rt.config.flows = []
+    rt.flow_configs = {}
+    return recs
+
+
+# every shorthand key `_dict_to_element` accepts, grouped by the `_type` it produces (the n-th use takes the n-th alias)
+V1_SHORT = {
+    "UserIntent": [{"user": "said a"}, {"intent": "said b"}, {"you": "said c"}, {"user": "said a(x=1)"}],
+    "run_action": [{"bot": "say x"}, {"utter": "say y"}, {"ask": "say z"}, {"bot_ask": "say q"}, {"run": "act"}, {"action": "act(a=1)"},
+                   {"execute": "$r = act"}, {"infer": [{"event": "X"}]}, {"add": [{"user": "said i"}]}, {"new": {"event": "Y"}},
+                   {"post": [{"event": "Z"}]}],
+    "break": [{"break": True}], "continue": [{"continue": True}, {"pass": True}], "stop": [{"stop": True}, {"abort": True}],
+    "check": [{"check": "$x"}], "set": [{"set": "$x = 1"}, {"set": "x = $x + 1"}],
+    "meta": [{"meta": {"note": "n"}}, {"meta": {"priority": 2}}, {"meta": {}}],
+    "flow": [{"flow": "g"}, {"call": "g($x)"}, {"activate": "g"}],
+}
+
+
+def _v1_short(kind, n):
+    alts = V1_SHORT[kind]
+    return copy.deepcopy(alts[n[0] % len(alts)])
+
+
+
+def build_v1_yaml(items, n=None):
+    """the same item trees in the CoYML SHORTHAND of a `flows:` section of config.yml (second loading route:
+    `RailsConfig.parse_object` -> `parse_flow_elements`)"""
+    out = []
+    n = n if n is not None else [0]
+    for it in items:
+        k = it[0]
+        n[0] += 1
+        if k == "s":
+            out.append(_v1_short(it[1], n))
+        elif k == "ell":
+            out.append({"set": "$x = ..."})
+        elif k == "ret":
+            out.append({"return": True})
+        elif k == "label":
+            out.append(dict({"label" if n[0] % 2 else "checkpoint": it[1]}, **({"value": it[2]} if len(it) > 2 else {})))
+        elif k == "goto":
+            out.append({"goto": it[1]})
+        elif k == "if":
+            d = {"if": "$x", "then": build_v1_yaml(it[1], n)}
+            if it[2]:
+                d["else"] = build_v1_yaml(it[2], n)
+            out.append(d)
+        elif k == "while":
+            out.append({"while": "$x", "do": build_v1_yaml(it[1], n)})
+        elif k == "any":
+            out.append({"any" if n[0] % 2 else "or": [_v1_short(c, [n[0] + j]) for j, c in enumerate(it[1])]})
+        elif k == "br":
+            for b in it[1]:
+                out.append(build_v1_yaml(b, n))
+        else:
+            raise ValueError(k)
+    return out
+
+
+def compile_v1_yaml(case):
+    items = build_v1_yaml(case["items"])
+    raw = {"models": [], "flows": [{"id": "gen", "elements": items}]}
+    rec = {"id": "gen"}
+    try:
+        with _quiet():
+            if case.get("text"):
+                import yaml
+
+                config = _M["RailsConfig"].from_content(yaml_content=yaml.safe_dump(raw, sort_keys=False))
+            else:
+                config = _M["RailsConfig"].parse_object(copy.deepcopy(raw))
+    except Exception as e:  # noqa
+        rec["reject"] = f"{type(e).__name__}: {str(e)[:120]}"
+        if not (items and isinstance(items[0], dict)):
+            return [rec]  # (a flow that starts with a branch list / an empty flow: refused before parse_flow_elements is reached)
+        rec["items"] = case["items"]
+        return [rec]
+    flows = [f for f in config.flows if f.get("id") == "gen"]
+    if len(flows) != 1:
+        rec["reject"] = "the configuration holds %d flows `gen`" % len(flows)
+        return [rec]
+    elements = flows[0]["elements"]
+    if items and isinstance(items[0], dict):
+        rec["items"] = case["items"]
+    rec["elems"] = [elem_of(e) for e in elements]
+    rec["oracle"] = scan_v1(elements)
+    return [rec] + load_v1_flows([{"id": "gen", "elements": elements}])
+
+
+def compile_v1_items(flow_id, items, model_items, keep=None):
     v1 = _M["v1"]
     rec = {"id": flow_id}
     if model_items is not None:
@@ -1494,25 +1709,99 @@ def compile_v1_items(flow_id, items, model_items):
         return rec
     rec["elems"] = [elem_of(e) for e in elements]
     rec["oracle"] = scan_v1(elements)
+    if keep is not None:
+        keep.append({"id": flow_id, "elements": elements})
     return rec
 
 
-def compile_v1_source(filename, content):
+def compile_v1_source(filename, content, load=True):
     """real pipeline of the 1.0 parser, split so that the CoYML items are visible for the compiler differential"""
     v1cp = _M["v1cp"]
     snippets, _imports = v1cp.parse_snippets_and_imports(filename, content)
     result = v1cp.parse_coflows_to_yml_flows(filename, content, snippets=snippets, include_source_mapping=True)
     out = []
+    keep = []
     for flow_id, items in result["flows"].items():
         try:
             model_items = items_of(items)
         except Exception:  # noqa  -- an item the converter does not understand: checker + oracle only
             model_items = None
-        out.append(compile_v1_items(flow_id, copy.deepcopy(items), model_items))
+        out.append(compile_v1_items(flow_id, copy.deepcopy(items), model_items, keep))
+    if load and keep:
+        out.extend(load_v1_flows(keep))
     return out
 
 
+# ---- phase 5: state of the code under test that survives across compilations (memoisation keyed too coarsely, shared
+# mutable results, …).  Every worker process compiles thousands of programs one after the other, so such state IS exercised;
+# what is missing is a self-contained failing input.  A compile case whose from-scratch scan fails is therefore run again
+# in a FRESH interpreter: when it is clean there, the failure depends on what the process compiled before, the smallest
+# suffix of the worker's own history that reproduces it in a fresh interpreter is attached, the finding gets the history
+# class `@after-other-compilations`, and the shrinker turns it into a hermetic `v1seq` / `v2seq` case (a sequence of
+# programs, always run in a fresh interpreter).
+HIST_KINDS = ("v1items", "v1yaml", "v1src", "v2src", "v2ast")
+_HIST = []
+_CONFIRM_BUDGET = [3]
+_NEEDS = {}
+
+
+def _has_problem(obs):
+    return any(f.get("oracle") or f.get("oracle_paths") for f in obs.get("flows", []))
+
+
+def _fresh(cases):
+    """run the cases one after the other in a fresh interpreter; list of observations or None"""
+    import subprocess
+    import sys
+
+    code = ("import sys, json\nfrom harness.props import C12 as m\nm._CONFIRM_BUDGET[0] = 0\nm.worker_init()\n"
+            "cases = json.load(sys.stdin)\nout = [m._run_impl(c) for c in cases]\nsys.stdout.write('\\n@@RESULT@@' + json.dumps(out, default=str))\n")
+    try:
+        p = subprocess.run([sys.executable, "-c", code], input=json.dumps(cases).encode(), stdout=subprocess.PIPE, stderr=subprocess.DEVNULL,
+                           timeout=300, cwd=os.path.dirname(os.path.dirname(os.path.dirname(os.path.abspath(__file__)))))
+        return json.loads(p.stdout.decode().split("@@RESULT@@")[-1])
+    except Exception:  # noqa
+        return None
+
+
 def run_impl(case):
+    k = case["kind"]
+    if k in ("v1seq", "v2seq"):
+        res = _fresh(case["seq"])
+        if not res:
+            return {"version": "1.0" if k == "v1seq" else "2.x", "flows": [], "reject": "fresh interpreter: no result"}
+        obs = res[-1]
+        for f in obs.get("flows", []):
+            if f.get("oracle") or f.get("oracle_paths"):
+                f["cls"] = "@after-other-compilations"
+        obs["hermetic"] = len(case["seq"])
+        return obs
+    obs = _run_impl(case)
+    if k in HIST_KINDS:
+        if _has_problem(obs) and _CONFIRM_BUDGET[0] > 0:
+            _CONFIRM_BUDGET[0] -= 1
+            fresh = _fresh([case])
+            if fresh is not None and not _has_problem(fresh[0]):
+                need = None
+                for m in (1, 2, 4, 8, 16, 32):
+                    hist = [c for c in _HIST[-m:]]
+                    r = _fresh(hist + [case])
+                    if r and _has_problem(r[-1]):
+                        need = hist
+                        break
+                    if m >= len(_HIST):
+                        break
+                for f in obs["flows"]:
+                    if f.get("oracle") or f.get("oracle_paths"):
+                        f["cls"] = "@after-other-compilations"
+                obs["history_dependent"] = True
+                obs["history"] = need
+        _HIST.append(case)
+        del _HIST[:-32]
+    return obs
+
+
+def _run_impl(case):
     k = case["kind"]
     if k == "file":
         path = os.path.join(REPO, case["path"])
@@ -1538,11 +1827,13 @@ def run_impl(case):
                 obs["reject"] = f"flow-configs: {type(e).__name__}: {str(e)[:120]}"
         else:
             # the loader's result for 1.0 is what parse_colang_file returned; the split pipeline gives the items for the differential
-            flows = compile_v1_source(os.path.basename(path), content)
+            flows = compile_v1_source(os.path.basename(path), content, load=False)
             real = {f["id"]: [elem_of(e) for e in f["elements"]] for f in parsed["flows"]}
             for f in flows:
                 if "elems" in f and real.get(f["id"]) != f["elems"]:
                     f["oracle"] = f.get("oracle", []) + ["adapter: split pipeline differs from parse_colang_file for this flow"]
+            with _quiet():
+                flows.extend(load_v1_flows(parsed["flows"]))  # the flow dicts the loader got from parse_colang_file
             obs["flows"] = flows
         return obs
     if k == "v2src":
@@ -1594,7 +1885,13 @@ def run_impl(case):
             obs["reject"] = f"parse: {type(e).__name__}: {str(e)[:120]}"
         return obs
     if k == "v1items":
-        return {"version": "1.0", "flows": [compile_v1_items("gen", build_v1_items(case["items"]), case["items"])]}
+        keep = []
+        flows = [compile_v1_items("gen", build_v1_items(case["items"]), case["items"], keep)]
+        if keep:
+            flows.extend(load_v1_flows(keep))
+        return {"version": "1.0", "flows": flows}
+    if k == "v1yaml":
+        return {"version": "1.0", "flows": compile_v1_yaml(case)}
     raise ValueError(k)
 
 
@@ -1638,6 +1935,8 @@ def model_requests(case, obs):
                 reqs.append({"m": "C12.v1closed", "elems": f["elems"]})
             if "items" in f:
                 reqs.append({"m": "C12.v1dynamic" if f.get("dyn") else "C12.v1compile", "items": f["items"]})
+            if "from" in f:
+                reqs.append({"m": "C12.v1load", "elems": f["from"]})
     return reqs
 
 
@@ -1745,7 +2044,7 @@ def compare(case, obs, mouts):
         else:
             if "elems" in f:
                 m = next(it)
-                ok_impl = not [p for p in f["oracle"] if not p.startswith("adapter:")]
+                ok_impl = not [p for p in f["oracle"] if not p.startswith(("adapter:", "goto-misses-checkpoint"))]  # (the checker has no names after resolution)
                 if m["ok"] != ok_impl:
                     return f"flow {f['id']}: Lean checker says in-bounds={m['ok']} (first bad {m['bad']}), from-scratch scan says {f['oracle'][:1] or 'ok'}"
             if "items" in f:
@@ -1761,6 +2060,13 @@ def compare(case, obs, mouts):
                     if a != b:
                         i = next((j for j in range(min(len(a), len(b))) if a[j] != b[j]), min(len(a), len(b)))
                         return f"flow {f['id']}: V1Compile model{' (dynamicFlow = start_flow :: compileFull)' if f.get('dyn') else ''} differs from the real elements at element {i}: model {a[i:i+1]} vs real {b[i:i+1]} (lengths {len(a)}/{len(b)})"
+            if "from" in f:
+                m = next(it)
+                a = [[e["k"], e["n"], e["e"], e["b"], e["c"], e["h"], e["a"]] for e in m["ok"]]
+                b = [[e["k"], e["n"], e["e"], e["b"], e["c"], e["h"], e["a"]] for e in f["elems"]]
+                if a != b:
+                    i = next((j for j in range(min(len(a), len(b))) if a[j] != b[j]), min(len(a), len(b)))
+                    return f"flow {f['id']}: the elements the runtime holds differ from the model `loadFlow` of `_load_flow_config` (leading meta element removed, everything else kept) at element {i}: model {a[i:i+1]} vs runtime {b[i:i+1]} (lengths {len(a)}/{len(b)})"
     return None
 
 
@@ -1769,6 +2075,12 @@ def compare(case, obs, mouts):
 def _where(case, obs, f):
     where = case.get("path") or case["kind"]
     hist = ""
+    if f.get("loaded"):
+        hist = " [the elements RuntimeV1_0 holds after _load_flow_config; history class @loaded]"
+    if f.get("cls") == "@after-other-compilations":
+        n = obs.get("hermetic")
+        hist += (f" [last of {n} programs compiled one after the other in a fresh interpreter" if n else
+                 " [clean in a fresh interpreter, fails after the programs this process compiled before (obs.history)") + "; history class @after-other-compilations]"
     if "snap" in f:
         hist = f" [after step {f['snap'][0]} of the history, instance/view {f['snap'][1]}{'/' + f['view'] if 'view' in f else ''}; history class {f.get('cls') or '@first-compilation'}]"
     return f"{where} flow `{f['id']}` (Colang {obs['version']}){hist}: "
@@ -1776,6 +2088,8 @@ def _where(case, obs, f):
 
 def oracle(case, obs):
     flows = obs.get("flows", [])
+    if obs.get("history"):
+        _NEEDS[json.dumps(case, sort_keys=True, default=str)] = obs["history"]
     for f in flows:  # static closedness first, so that a recorded path-level finding never hides it
         if f.get("oracle"):
             return _where(case, obs, f) + "; ".join(f["oracle"][:3])
@@ -1786,7 +2100,7 @@ def oracle(case, obs):
 
 
 def signature(case, obs, msg):
-    m = re.search(r"(scope-reopened|dangling-target|merge-without-fork|scope-never-closed|endscope-without-beginscope|composite-left|label-table|offset-out-of-bounds|unresolved|missing-offset|adapter)", msg or "")
+    m = re.search(r"(scope-reopened|dangling-target|merge-without-fork|scope-never-closed|endscope-without-beginscope|composite-left|label-table|offset-out-of-bounds|unresolved|missing-offset|goto-misses-checkpoint|adapter)", msg or "")
     if not m:
         return None
     h = re.search(r"history class (@[a-z-]+)", msg or "")
@@ -1867,6 +2181,21 @@ def tags(case, obs):
             t.append("v1:len<10" if n < 10 else "v1:len<50" if n < 50 else "v1:len>=50")
             if "items" in f:
                 t.append("v1:dynamic-flow-differential" if f.get("dyn") else "v1:compile-differential")
+            if any(e["k"] == "meta" for e in f["elems"][1:]):
+                t.append("v1:nested-meta" + ("@held-by-runtime" if "from" in f else ""))
+            if "from" in f:
+                t.append("v1:load-differential")
+                t.append("v1:leading-meta-sliced" if f["from"] and f["from"][0]["k"] == "meta" else "v1:loaded-unchanged")
+                spans = 0  # offsets of the held flow that span a nested meta element (what a wrong removal would shift)
+                for i, e in enumerate(f["elems"]):
+                    for off in [e[k] for k in ("n", "e", "b", "c") if e[k] is not None and not e["a"]] + e["h"]:
+                        lo, hi = sorted((i, i + off))
+                        if any(x["k"] == "meta" for x in f["elems"][lo + 1:hi]):
+                            spans += 1
+                if spans:
+                    t.append("v1:offset-spans-nested-meta@held-by-runtime")
+                if any(i + e[k] == len(f["elems"]) for i, e in enumerate(f["elems"]) for k in ("n", "e", "b") if e[k] is not None and not e["a"]):
+                    t.append("v1:offset-to-flow-end@held-by-runtime")
     return t
 
 
@@ -1890,20 +2219,37 @@ def _sub_tree(items):
 
 
 def shrink(case):
+    need = _NEEDS.get(json.dumps(case, sort_keys=True, default=str))
+    if need is not None:  # a history-dependent failure: the self-contained input is the sequence
+        yield {"kind": "v1seq" if case["kind"].startswith("v1") else "v2seq", "seq": need + [case]}
+        return
+    if case["kind"] in ("v1seq", "v2seq"):
+        seq = case["seq"]
+        for i in range(len(seq) - 1):
+            yield dict(case, seq=seq[:i] + seq[i + 1:])
+        return
     if case["kind"] == "v2ast":
         for s in _sub_tree(case["stmts"]):
             yield dict(case, stmts=s)
         if case.get("again") == "recompile2":
             yield dict(case, again="recompile")
-    elif case["kind"] == "v1items":
+    elif case["kind"] in ("v1items", "v1yaml"):
         for s in _sub_tree(case["items"]):
             yield dict(case, items=s)
+        if case.get("text"):
+            yield {k: v for k, v in case.items() if k != "text"}
     elif case["kind"] in ("v2rt", "v1rt"):
         steps = case["steps"]
         for i in range(1, len(steps)):
             yield dict(case, steps=steps[:i] + steps[i + 1:])
         if case.get("api") == "rails" and case["kind"] == "v2rt":
             yield dict(case, api="runtime")
+        for si, st in enumerate(steps):  # the body of a flow added at run time (1.0 `dyn` / 2.x `add`), line by line
+            if st[0] in ("dyn", "add") and isinstance(st[-1], str):
+                bl = st[-1].split("\n")
+                for i in range(1, len(bl)):
+                    if bl[i].strip():
+                        yield dict(case, steps=steps[:si] + [st[:-1] + ["\n".join(bl[:i] + bl[i + 1:])]] + steps[si + 1:])
         lines = case["src"].split("\n")
         gate = next((i for i, l in enumerate(lines) if "NeverSent" in l), None)
         if case["kind"] == "v2rt" and gate is None:
